@@ -1038,6 +1038,53 @@ def _recording_handlers(a, log):
         a.bind(getattr(evt, name), h)
 
 
+def _negotiate_from_ac(a, contexts, answers, unsolicited):
+    """Run the real requestor negotiation on the E3 association `a` against a scripted A-ASSOCIATE-AC.
+
+    answers: {proposed context ID (as str or int): 0 (accept) | 1..4 (reject with that result) | "omit"}
+    unsolicited: [[context ID never proposed, result]]  -> the set of IDs a conformant reading of the AC accepts"""
+    import threading
+
+    from pynetdicom.pdu_primitives import A_ASSOCIATE
+    from pynetdicom.presentation import PresentationContext, build_context
+
+    answers = {int(k): v for k, v in answers.items()}
+    proposed = []
+    for ab, ts, _scu, _scp, i in contexts:
+        cx = build_context(ab, [ts])
+        cx.context_id = i
+        proposed.append(cx)
+    a.requestor.requested_contexts = proposed
+    results = []
+    for ab, ts, _scu, _scp, i in contexts:
+        r = answers.get(i, 0)
+        if r == "omit":
+            continue
+        cx = PresentationContext()
+        cx.context_id, cx.result = i, r
+        cx.transfer_syntax = [ts]  # (a rejecting AC item still carries one transfer syntax sub-item)
+        results.append(cx)
+    for i, r in unsolicited:
+        cx = PresentationContext()
+        cx.context_id, cx.result = i, r
+        cx.transfer_syntax = [contexts[0][1]]
+        results.append(cx)
+    ac = A_ASSOCIATE()
+    ac.result = 0x00
+    ac.presentation_context_definition_results_list = results
+    ready = threading.Event()
+    ready.set()
+    a._accepted_cx = {}
+    a.is_established = False
+    a.dul.socket = type("S", (), {"_ready": ready, "_is_connected": True, "close": lambda self: None})()
+    a.acse.send_request = lambda: None
+    a.dul.receive_pdu = lambda wait=False, timeout=None: ac
+    a.acse._negotiate_as_requestor()
+    a.is_established = True
+    a._is_paused = True
+    return {i for _ab, _ts, _scu, _scp, i in contexts if answers.get(i, 0) == 0}
+
+
 def run_ctx_case(case):
     """case = {"layout": [[rtype, context_id, tsname], ...]   accepted contexts (SOP class CTX_SOP[rtype])
                "rejected": [ids],  "path": one of PATHS, "rtype": request type, "cid": 0..255, "max_pdu": int}
@@ -1059,8 +1106,15 @@ def run_ctx_case(case):
             contexts.append((CTX_SOP[rt], TS[tsname][0], False, True, i))
     obs = Obs()
     obs.raised = None
-    a = E3.mk("requestor" if scu else "acceptor", contexts)
+    answers = case.get("answers")
+    a = E3.mk("requestor" if (scu or answers) else "acceptor", contexts)
     obs.accepted = set(a._accepted_cx)
+    if answers:
+        # The accepted set is not planted but derived by pynetdicom's own requestor-side negotiation
+        # (ACSE._negotiate_as_requestor -> presentation.negotiate_as_requestor) from a peer's A-ASSOCIATE-AC that
+        # accepts, rejects (reasons 1-4), omits, or answers with an ID that was never proposed.  The expected accepted
+        # set is computed here from the answers alone: proposed IDs the AC answered with result 0.
+        obs.accepted = _negotiate_from_ac(a, contexts, answers, case.get("unsolicited") or [])
     rej = []
     for i in case.get("rejected") or []:
         cx = build_context(CTX_SOP["C-FIND"])
